@@ -969,7 +969,13 @@ package grpctunnel
 //@   assigns nothing
 //@   ensures[C04] @clean  old(c.err) == io.EOF ==> result == nil
 //@   ensures[C04,C11] @cause  old(c.err) != nil && old(c.err) != io.EOF ==> result == old(c.err)
-//@   ensures[C04] @open   old(c.err) == nil ==> count("call:Err") == 0
+//@   ghost ce error = nil
+//@   at call Err#1
+//@     assert[C04] @ownctx recv == c.ctx
+//@   at aftercall Err#1
+//@     ghost ce = result
+//@   ensures[C04] @open   old(c.err) == nil ==> count("invoke:Err") == 1
+//@   ensures[C04] @opencause old(c.err) == nil ==> result == ce
 //@   nopanic[C09]
 
 // ----- client stream: completion -------------------------------------------------
